@@ -112,6 +112,8 @@ pub struct Model {
     pub flags: Vec<(String, String, String)>,
     pub probes: BTreeMap<String, u64>,
     pub faults: BTreeMap<String, u64>,
+    /// the faults of the current step, in order
+    pub step_faults: Vec<String>,
     /// out of band: every address ever observed for a (checksum, creator, salt) triple, including in
     /// instantiations that were rolled back afterwards
     pub salted_seen: BTreeMap<(String, String, Vec<u8>), String>,
@@ -209,6 +211,7 @@ impl Model {
             flags: vec![],
             probes: BTreeMap::new(),
             faults: BTreeMap::new(),
+            step_faults: vec![],
             addr_fallback: None,
             addr_validator: None,
             salted_seen: BTreeMap::new(),
@@ -220,6 +223,13 @@ impl Model {
     }
     pub fn fault(&mut self, k: &str) {
         *self.faults.entry(k.to_string()).or_insert(0) += 1;
+        self.step_faults.push(k.to_string());
+    }
+
+    /// The fault that made the current step's call fail in the model: the last one recorded that is
+    /// not mere propagation or catching.
+    pub fn root_cause(&self) -> Option<&str> {
+        self.step_faults.iter().rev().map(|s| s.as_str()).find(|k| *k != "failure_propagated" && *k != "failure_caught")
     }
 
     pub fn oob_snap(&self) -> ModelOob {
@@ -235,6 +245,7 @@ impl Model {
         self.trace.clear();
         self.module_calls.clear();
         self.flags.clear();
+        self.step_faults.clear();
         self.learned_addr.clear();
         for r in real_trace {
             if r.kind == "instantiate" {
